@@ -43,6 +43,8 @@ type vrtConn struct {
 	readsSinceArm int
 	writesAfterClose int
 	wcap       int // > 0: the peer has stopped reading - Write blocks once wcap bytes are pending
+	eofWithLast bool // the last bytes and the end of the stream are delivered by one Read (n > 0, io.EOF), as crypto/tls does
+	failWrites  bool // the write side of the connection is broken, the read side still delivers
 }
 
 func vrtNewConn() *vrtConn {
@@ -66,6 +68,9 @@ func (c *vrtConn) Read(b []byte) (int, error) {
 	if len(c.in) > 0 {
 		n := copy(b, c.in)
 		c.in = c.in[n:]
+		if c.eofWithLast && c.peerClosed && len(c.in) == 0 {
+			return n, io.EOF
+		}
 		return n, nil
 	}
 	if c.timedOut {
@@ -84,6 +89,9 @@ func (c *vrtConn) Write(b []byte) (int, error) {
 	}
 	if c.closed {
 		c.writesAfterClose++
+		return 0, vrtErrClosed
+	}
+	if c.failWrites {
 		return 0, vrtErrClosed
 	}
 	if c.peerClosed && c.wcap > 0 {
